@@ -170,7 +170,7 @@ bool lock_free_ref_count<Traits>::enable_concurrent_ptr<T, N, Deleter>::decremen
     // (4) - this release/acquire CAS synchronizes with itself
   } while (!ref_count().compare_exchange_weak(old_refcnt,
                                               new_refcnt,
-                                              new_refcnt == RefCountClaimBit ? std::memory_order_acquire
+                                              new_refcnt == RefCountClaimBit ? std::memory_order_acq_rel
                                                                              : std::memory_order_release,
                                               std::memory_order_relaxed));
 
